@@ -506,3 +506,24 @@ pub fn property() -> Property {
         ],
     }
 }
+
+pub fn seed_files(n: usize) -> Vec<(String, Vec<u8>)> {
+    let strat = case_strategy(12);
+    let mut out = vec![];
+    let mut k = 0u64;
+    while out.len() < n && k < 300 {
+        let c = draw_fixed(&strat, 0xC06_5EED + k);
+        k += 1;
+        // alternate versions; prefer models with shapes and several meshes
+        if c.v6 != (out.len() % 2 == 1) {
+            continue;
+        }
+        let spec = realise(&c, &READ_PAIRS, false);
+        let built = encode(&spec);
+        if built.bytes.len() > 8000 || spec.lods.iter().flatten().count() < 2 {
+            continue;
+        }
+        out.push((format!("gen{}-v{}", out.len(), if c.v6 { 6 } else { 5 }), built.bytes));
+    }
+    out
+}
